@@ -6,7 +6,9 @@
  *                (source offset, sink offset, pump fields) closes the space.
  *  mode=splice : real pipes / socket pairs; feed / drain / close / pump programs.
  */
+#ifndef _GNU_SOURCE
 #define _GNU_SOURCE
+#endif
 #include <errno.h>
 #include <fcntl.h>
 #include <poll.h>
